@@ -575,6 +575,39 @@ def n17_ref_into_iter(text, fired):
     return code_sub(text, r'(for\s+[^\n]+?\s+in\s+)&(?!mut\b)([A-Za-z_][A-Za-z0-9_.]*)(\s*\{)', r'\1\2.iter()\3', fired, 'N17')
 
 
+def n27_chunks_enumerate(text, fired):
+    """N27: for P in X.chunks(K) {               ->  let vx_chN = vx_chunks(X, K); for P in vx_chN.iter() {
+       N28: for (A, B) in X.iter().enumerate() {  ->  let vx_enN = vx_enumerate(X); for vx_prN in vx_enN.iter() { let (A, B) = *vx_prN;
+    `chunks` and `enumerate` are provided iterator methods Verus cannot specify; the two shims (lib/core.vxt) return the
+    sequence of items the std iterators yield, in order."""
+    m = mask(text)
+    n = 0
+    for mm in list(re.finditer(r'([ \t]*)for\s+([a-z_][a-z0-9_]*)\s+in\s+([A-Za-z0-9_.]+)\.chunks\(', m))[::-1]:
+        close_i = match_close(m, mm.end() - 1)
+        tail = re.match(r'\s*\{', m[close_i + 1:])
+        if not tail:
+            continue
+        indent = mm.group(1)
+        pat, x = [text[mm.start(i):mm.end(i)] for i in (2, 3)]
+        k = text[mm.end():close_i]
+        name = 'vx_ch%d' % n
+        n += 1
+        text = (text[:mm.start()] + '%slet %s = vx_chunks(%s, %s);\n%sfor %s in %s.iter() {' % (indent, name, x, k, indent, pat, name)
+                + text[close_i + 1 + tail.end():])
+        fired['N27'] = fired.get('N27', 0) + 1
+    m = mask(text)
+    n = 0
+    for mm in list(re.finditer(r'([ \t]*)for\s+\(([a-z_][a-z0-9_]*),\s*([a-z_][a-z0-9_]*)\)\s+in\s+([A-Za-z0-9_.]+)\.iter\(\)\.enumerate\(\)\s*\{', m))[::-1]:
+        indent = mm.group(1)
+        a, b, x = [text[mm.start(i):mm.end(i)] for i in (2, 3, 4)]
+        en, pr = 'vx_en%d' % n, 'vx_pr%d' % n
+        n += 1
+        text = (text[:mm.start()] + '%slet %s = vx_enumerate(%s);\n%sfor %s in %s.iter() {\n%s    let (%s, %s) = *%s;'
+                % (indent, en, x, indent, pr, en, indent, a, b, pr) + text[mm.end():])
+        fired['N28'] = fired.get('N28', 0) + 1
+    return text
+
+
 def n13_hoist_iter_temp(text, fired):
     """for P in CALL(..).iter() { -> let vx_tmpN = CALL(..); for P in vx_tmpN.iter() {
     only when the iterated expression is a method call chain ending in `()`.iter()"""
@@ -1027,6 +1060,7 @@ class Gen:
         if any(kind == 'anf' for kind, _, _, _ in sections):
             body2 = n20_anf_tail_chain(body2, fired, qname)
         body2 = n17_ref_into_iter(body2, fired)
+        body2 = n27_chunks_enumerate(body2, fired)
         body2 = n13_hoist_iter_temp(body2, fired)
         # closure ordinals refer to the function as written: apply from the last to the first, so that giving one closure
         # its types does not renumber the ones before it
